@@ -37,9 +37,15 @@ MkInput(ptr, vis, marks, emarks, ditem, dlines) ==
               EXCEPT !.doc = dd("enum"), !.copyable = emarks.copy, !.cloneable = emarks.clone, !.defaultable = emarks.dflt,
                      !.singleton = IF emarks.copy THEN 131072 ELSE None]
       h == Func("h", vis.h, dd("fn"), <<ArgC>>, TNm("u32"), 4096, None, "")
+      (* the same markers on a type whose layout holds arrays of more than 32 elements, declared and generated (the gap in  *)
+      (* front of `far`): the derive list is the declared one all the same (that `Default` is not implemented for such    *)
+      (* arrays is a documented limit of the bindings, not something to hide)                                             *)
+      Big == [TypeDef("Big", "pub", <<Field("tbl", "pub", <<>>, TArr(TNm("u16"), 33), None, FALSE),
+                                      Field("far", "pub", <<>>, TNm("u32"), 128, FALSE)>>)
+                EXCEPT !.copyable = marks.copy, !.cloneable = marks.clone, !.defaultable = marks.dflt, !.align = 4]
       (* alignment 1 without being packed: `repr(C, align(1))`, not `repr(C, packed)` *)
       Bt == TypeDef("Bt", "pub", <<Field("b", "pub", <<>>, TNm("u8"), None, FALSE)>>)
-      m == [Module(<<"m">>, <<>>, <<T, V, D, DV, E, Bt>>)
+      m == [Module(<<"m">>, <<>>, <<T, V, D, DV, E, Bt, Big>>)
               EXCEPT !.doc = dd("module"), !.impls = <<Impl("T", <<h>>)>>,
                      (* a prologue that holds an item: the module documentation still has to come first *)
                      !.backs = <<Backend("rust", "use core::ffi::c_void as Opaque;", "pub type Tail = u8;")>>,
@@ -99,7 +105,7 @@ P_C17 ==
      /\ FieldNamed(vt, "vf").vis = vf.vis /\ FieldNamed(vt, "_vfunc_2").vis = "priv"
      /\ File.evals[1].vis = M.evals[1].vis
      (* derives and packing *)
-     /\ t.derives = WantDerives(T) /\ e.derives = WantDerives(E)
+     /\ t.derives = WantDerives(T) /\ e.derives = WantDerives(E) /\ Item("Big").derives = WantDerives(DefNamed("Big"))
      /\ t.packed = T.packed /\ (T.packed => t.align = None)
      /\ v.derives = <<>> /\ vt.derives = <<>>
      (* documentation: line for line on the counterparts, nowhere else *)
